@@ -185,8 +185,8 @@ pub fn arg_of(kind: RKind, big: usize) -> BoxedStrategy<RArg> {
         scod(),
         prop::bool::weighted(0.35),
         prop::bool::weighted(0.15),
-        text(200),
-        text(200),
+        text(700),
+        text(700),
         f32_bits(),
         sint_value(64),
     )
@@ -253,7 +253,7 @@ enum PayloadSpec {
 
 fn arg_list(large: bool, elem: BoxedStrategy<RArg>) -> BoxedStrategy<Vec<RArg>> {
     let list = if large {
-        prop_oneof![20 => vec(elem.clone(), 0..8), 2 => vec(elem.clone(), 8..40), 1 => vec(elem, 200..=255)].boxed()
+        prop_oneof![40 => vec(elem.clone(), 0..8), 4 => vec(elem.clone(), 8..40), 1 => vec(elem.clone(), 200..=255), 1 => vec(elem, 254..=255)].boxed()
     } else {
         vec(elem, 0..6).boxed()
     };
